@@ -409,7 +409,9 @@ class C08(Check):
     theorems = ["Pox.C08.waiter_once", "Pox.C08.waiter_not_early", "Pox.C08.waiter_immediate", "Pox.C08.failure_contained",
                 "Pox.C08.callback_failure_local", "Pox.C08.lifecycle", "Pox.C08.lifecycle_up_when_released",
                 "Pox.C08.lifecycle_down", "Pox.C08.goUp_delivers", "Pox.C08.failure_does_not_starve", "Pox.C08.rendezvous_never_raises",
-                "Pox.C08.fired_snapshot_is_registry", "Pox.C08.quit_goes_down", "Pox.C08.exec_reach", "Pox.C08.driver_reach", "Pox.C08.lifecycle_defect"]
+                "Pox.C08.fired_snapshot_is_registry", "Pox.C08.quit_goes_down", "Pox.C08.exec_reach", "Pox.C08.driver_reach", "Pox.C08.lifecycle_defect",
+                "Pox.C08.handler_names_component", "Pox.C08.handler_binds_event", "Pox.C08.listen_deps_exact", "Pox.C08.wiring_exact",
+                "Pox.C08.wiring_once", "Pox.C08.handler_wired"]
     anchors = [("pox/core.py", 303, 347),       # quit / _quit
                ("pox/core.py", 386, 470),       # goUp, _get_go_up_deferral, _goUp_stage2, _waiter_notify, hasComponent
                ("pox/core.py", 472, 586),       # registerNew, register, call_when_ready, _try_waiter, _try_waiters
@@ -420,7 +422,7 @@ class C08(Check):
     trusted_base = ["model Model/Core.lean hand-written from pox/core.py (small-step machine with an explicit control stack); tied to the code by this correspondence run",
                     "user code (callbacks, _all_dependencies_met, lifecycle handlers) is a parameter of the model: arbitrary, possibly non-terminating programs of acts register/call_when_ready/listen_to_dependencies/get-deferral/release/quit/raise",
                     "threads spawned by quit() are run one after the other by the explicit op `tick` (no interleaving inside _quit; races are C07's subject)",
-                    "listener wiring (handler-name parsing, autoBindEvents prefix rule) is modelled and compared but carries no theorem of its own beyond waiter_once for the declaring waiter"]
+                    "listener wiring (handler-name parsing, autoBindEvents prefix rule, attribute names) is modelled on character lists with its own theorems; the String<->List Char conversion in the driver is glue"]
     assumptions = ["waiter callbacks are pairwise distinct objects (entries of _waiters are compared with ==; equal entries would be interchangeable)",
                    "no listener of ComponentRegistered re-enters the core",
                    "goUp() is called at most once per history (boot.py:526 is the only caller; translate() re-checks this by ast on every run)",
@@ -770,7 +772,8 @@ class C08(Check):
                 "bodies": [[act(a) for a in b] for b in case["bodies"]] + [[], [{"a": "raise"}]],
                 "onGoingUp": [act(a) for a in case["onGoingUp"]], "onUp": [act(a) for a in case["onUp"]],
                 "onGoingDown": [act(a) for a in case["onGoingDown"]], "onDown": [act(a) for a in case["onDown"]],
-                "sinks": [{"attrs": s["attrs"], "explicit": s["explicit"], "met": s.get("met")} for s in case["sinks"]],
+                "sinks": [{"attrs": s["attrs"], "explicit": s["explicit"], "met": s.get("met"),
+                           "set_attrs": bool(s.get("set_attrs", True)), "short_attrs": bool(s.get("short_attrs", False))} for s in case["sinks"]],
                 "events": [[c, evs] for c, evs in sorted(case["events"].items())],
                 "ops": [act(a) for a in case["ops"]]}
 
@@ -781,7 +784,8 @@ class C08(Check):
         for k, attr, comp, ev in obs["hits"]:
             wired.setdefault(str(k), []).append([attr, comp, ev])
         return {"segs": segs, "comps": obs["comps"], "pending": obs["pending"], "outstanding": obs["outstanding"],
-                "wired": {k: sorted(v) for k, v in wired.items()}}
+                "wired": {k: sorted(v) for k, v in wired.items()},
+                "sink_attrs": {k: v for k, v in obs["sink_attrs"].items() if v}}
 
     def model_obs(self, case, resp):
         if "error" in resp: return resp
@@ -794,7 +798,8 @@ class C08(Check):
             for b in s["bound"]:
                 wired.setdefault(str(s["sink"]), []).append(b)
         return {"segs": segs, "comps": resp["comps"], "pending": resp["pending"], "outstanding": resp["outstanding"],
-                "wired": {k: sorted(v) for k, v in wired.items()}}
+                "wired": {k: sorted(v) for k, v in wired.items()},
+                "sink_attrs": {str(s["id"]): sorted(set(s["attrs"])) for s in resp["sinks"] if s["attrs"]}}
 
     # ------------------------------------------------------------------ the property itself, on the real core's observables
     def oracle(self, case, obs):
